@@ -39,8 +39,8 @@ func init() {
 	_ = engine
 	reg(&Property{
 		ID:          "C01",
-		Explanation: "Decides on every path of the memory driver: S1 the seven indexes are written, deleted and read under the same keys (bucket key signature and element key = full triple UUID agree between AddTriples, RemoveTriples and each of the twelve readers; each index is freshly allocated per graph and no package-level map exists); S2 create/get/drop of a graph name test presence first and fail without effect otherwise; S3 every access to the namespace map and the indexes holds the owner's lock in the required mode. The identity clause is C06's rule H2. Also (DESIGN §0.1): S1x bucket drops guarded by that bucket's emptiness and NewGraph registering a value allocated in the call; S2y presence test and map update inside one write-locked section; H1x/H3x the identity hashes read whole varints from buffers still owned; M4/M5 the memoizing wrapper's keys use full UUIDs. Not decided: set semantics over histories as such. Round 3: S7b no return inside the batch loop; S3d guarded fields only touched by their owner; M3b.",
-		Rules:       []func(*Ctx){ruleM4b, ruleS7c, ruleS3d, ruleS7b, ruleM3b, ruleH1x, ruleH3x, ruleM4M5, ruleS1, ruleS1x, ruleS2, ruleS2y, ruleS3, ruleS7},
+		Explanation: "Decides on every path of the memory driver: S1 the seven indexes are written, deleted and read under the same keys (bucket key signature and element key = full triple UUID agree between AddTriples, RemoveTriples and each of the twelve readers; each index is freshly allocated per graph and no package-level map exists); S2 create/get/drop of a graph name test presence first and fail without effect otherwise; S3 every access to the namespace map and the indexes holds the owner's lock in the required mode. The identity clause is C06's rule H2. Also (DESIGN §0.1): S1x bucket drops guarded by that bucket's emptiness and NewGraph registering a value allocated in the call; S2y presence test and map update inside one write-locked section; H1x/H3x the identity hashes read whole varints from buffers still owned; M4/M5 the memoizing wrapper's keys use full UUIDs. Not decided: set semantics over histories as such. Round 3: S7b no return inside the batch loop; S3d guarded fields only touched by their owner; M3b. Round 7: S1y a graph is complete before it is published.",
+		Rules:       []func(*Ctx){ruleS1y, ruleM4b, ruleS7c, ruleS3d, ruleS7b, ruleM3b, ruleH1x, ruleH3x, ruleM4M5, ruleS1, ruleS1x, ruleS2, ruleS2y, ruleS3, ruleS7},
 		Level:       "index key agreement between writer, deleter and readers (S1), guarded namespace operations (S2), lockset (S3), batch atomicity (S7)",
 		Trusted:     []string{"Go map semantics", "guard table of S3", trustedCore},
 		NotDecided:  []string{"set semantics over arbitrary histories as such (follows from map semantics once S1 holds, but no rule states it)", "idempotence of re-add / absent-remove", "independence of graphs beyond per-graph allocation of every index", "injectivity of the identity hashes (H2 only refutes)"},
@@ -64,16 +64,16 @@ func init() {
 	})
 	reg(&Property{
 		ID:          "C04",
-		Explanation: "Decides: P9 which driver mutations each statement kind can reach (lexical closures per Execute), the construct flag selecting AddTriples vs RemoveTriples, the fan-out over every target graph with the whole batch, the target list being the one the grammar puts after INTO/FROM, and Reify using one fresh blank node for its three triples; P5 the query (graph resolution) precedes the writer in CONSTRUCT/DECONSTRUCT; P8 no write error is dropped; L6 the bulk writer is joined and its channel closed on every path. Also: P9c every row of the binding table sends at least one triple; P9d the bulk writer keeps its first error; I1 Init returns each graph lookup error at once; P8b tested errors are propagated; PO1. Not decided: that the written set equals the stated set. Round 3: TB3 projections keep the rows (constant-only templates); HK2 the bindings checker validates before accepting; S7b. Round 6: OK1.",
-		Rules:       []func(*Ctx){ruleOK1, ruleS13, ruleIE1, ruleTB3, ruleHK2, ruleS7b, ruleP9d, ruleP9, ruleP9c, rulePO1, ruleI1, ruleP5, func(c *Ctx) { ruleP8(c, "bql/planner") }, func(c *Ctx) { ruleP8b(c, "bql/planner") }, func(c *Ctx) { ruleL6(c, 12, "bql/planner") }},
+		Explanation: "Decides: P9 which driver mutations each statement kind can reach (lexical closures per Execute), the construct flag selecting AddTriples vs RemoveTriples, the fan-out over every target graph with the whole batch, the target list being the one the grammar puts after INTO/FROM, and Reify using one fresh blank node for its three triples; P5 the query (graph resolution) precedes the writer in CONSTRUCT/DECONSTRUCT; P8 no write error is dropped; L6 the bulk writer is joined and its channel closed on every path. Also: P9c every row of the binding table sends at least one triple; P9d the bulk writer keeps its first error; I1 Init returns each graph lookup error at once; P8b tested errors are propagated; PO1. Not decided: that the written set equals the stated set. Round 3: TB3 projections keep the rows (constant-only templates); HK2 the bindings checker validates before accepting; S7b. Round 6: OK1. Round 7: OK2 the kind that was tested is the kind used.",
+		Rules:       []func(*Ctx){ruleOK2, ruleOK1, ruleS13, ruleIE1, ruleTB3, ruleHK2, ruleS7b, ruleP9d, ruleP9, ruleP9c, rulePO1, ruleI1, ruleP5, func(c *Ctx) { ruleP8(c, "bql/planner") }, func(c *Ctx) { ruleP8b(c, "bql/planner") }, func(c *Ctx) { ruleL6(c, 12, "bql/planner") }},
 		Level:       "statement-kind -> effect table over the call graph with lexically bound closures (P9), dominance of stages (P5), error use (P8), join typestate (L6)",
 		Trusted:     []string{"the statement-kind -> mutation table stated by the property (frozen in rule P9)", trustedCore},
 		NotDecided:  []string{"the written set equals the stated set (template instantiation per row is value-level)", "untouched graphs beyond 'only the named lists are iterated'"},
 	})
 	reg(&Property{
 		ID:          "C05",
-		Explanation: "Decides that printer and parser of each text format use the same tables (T1): one time layout constant at every Format/Parse of anchors and bounds; %q paired with strconv.Unquote and the anchor delimiter; the literal separator; node delimiters; Triple.String's separators accepted by the compiled split patterns; WriteGraph's terminator vs the reader's split function; literal type names lexer = parser = printer (X5); the reader/writer counting discipline (IO1). Also: T2 conversion table, T2b the text between the quotes reaches the conversion unchanged. Not decided: round-trip equality for all values. Round 3: FS1 formats are constants; S3c no process-wide cache in the value packages; N1/N1b node.Parse builds validated nodes; T3 floats use 64 bits; H3z pooled bytes do not escape; T1 split patterns require the separator. Round 5: U1 no unsafe import in the engine.",
-		Rules:       []func(*Ctx){func(c *Ctx) { ruleU1(c, "triple/...", "io", "storage/...", "bql/...") }, ruleN2, ruleT4, ruleN1b, ruleT3, ruleN1, func(c *Ctx) { ruleH3z(c, "triple/...", "io", "storage/...", "bql/...") }, func(c *Ctx) { ruleFS1(c, "triple/...", "io") }, func(c *Ctx) { ruleS3c(c, "triple/...", "io") }, ruleT2b, ruleT1, ruleT2, ruleIO1},
+		Explanation: "Decides that printer and parser of each text format use the same tables (T1): one time layout constant at every Format/Parse of anchors and bounds; %q paired with strconv.Unquote and the anchor delimiter; the literal separator; node delimiters; Triple.String's separators accepted by the compiled split patterns; WriteGraph's terminator vs the reader's split function; literal type names lexer = parser = printer (X5); the reader/writer counting discipline (IO1). Also: T2 conversion table, T2b the text between the quotes reaches the conversion unchanged. Not decided: round-trip equality for all values. Round 3: FS1 formats are constants; S3c no process-wide cache in the value packages; N1/N1b node.Parse builds validated nodes; T3 floats use 64 bits; H3z pooled bytes do not escape; T1 split patterns require the separator. Round 5: U1 no unsafe import in the engine. Round 7: PU1.",
+		Rules:       []func(*Ctx){func(c *Ctx) { rulePU1(c, "triple/...", "io", "bql/...") }, func(c *Ctx) { ruleU1(c, "triple/...", "io", "storage/...", "bql/...") }, ruleN2, ruleT4, ruleN1b, ruleT3, ruleN1, func(c *Ctx) { ruleH3z(c, "triple/...", "io", "storage/...", "bql/...") }, func(c *Ctx) { ruleFS1(c, "triple/...", "io") }, func(c *Ctx) { ruleS3c(c, "triple/...", "io") }, ruleT2b, ruleT1, ruleT2, ruleIO1},
 		Level:       "sibling table agreement between printers and parsers (T1), must-pass-through on the line reader (IO1)",
 		Trusted:     []string{"fmt verbs, strconv.Unquote, regexp and bufio.ScanLines behave as documented", trustedCore},
 		NotDecided:  []string{"round-trip equality for all values (ids containing delimiters, extreme numbers, zones, text containing the literal separator) — value-level", "the unescaped \"%v\" in Literal.String"},
@@ -88,8 +88,8 @@ func init() {
 	})
 	reg(&Property{
 		ID:          "C07",
-		Explanation: "Decides, for every path of the analysed functions and hence every schedule that can drive them: S3 every access to a lock-guarded field (frozen guard table: memoryStore.graphs, the seven memory indexes, the five memoizer caches, Table rows/bindings) holds the owner's lock in the required mode; S4 no method re-acquires its receiver's lock through a same-receiver call; S5 every Store/Graph method with a result channel closes it exactly once on every return, error returns included; S6 no lookup (or module callee it hands the pointer to) stores through its *LookupOptions; S7 AddTriples is one critical section; S2 create/get/drop test presence under the lock; L6 planner goroutines are joined. Also: S2y write-locked create/drop; H3y module-wide pooled-buffer release order. Not decided: linearizability. Round 3: S13 lock balance per object; S3b/S3c/S3d completeness of the guard table, no package-level state, encapsulation of guarded fields; H4; H3w/H3z pooled values do not escape. Round 6: LK1 no method locks its receiver twice.",
-		Rules:       []func(*Ctx){func(c *Ctx) { ruleLK1(c, "bql/table", "storage/...") }, ruleS7c, ruleH4, ruleS3d, func(c *Ctx) { ruleH3w(c, "triple/...", "io", "storage/...", "bql/...") }, func(c *Ctx) { ruleH3z(c, "triple/...", "io", "storage/...", "bql/...") }, func(c *Ctx) { ruleS3c(c, "triple/...", "io", "bql/...", "storage/...") }, ruleS3b, ruleS13, ruleS3, ruleS4, ruleS5, ruleS6, ruleS7, ruleS2, ruleS2y, func(c *Ctx) { ruleH3y(c) }, func(c *Ctx) { ruleL6(c, 23, "bql/planner", "storage/...") }},
+		Explanation: "Decides, for every path of the analysed functions and hence every schedule that can drive them: S3 every access to a lock-guarded field (frozen guard table: memoryStore.graphs, the seven memory indexes, the five memoizer caches, Table rows/bindings) holds the owner's lock in the required mode; S4 no method re-acquires its receiver's lock through a same-receiver call; S5 every Store/Graph method with a result channel closes it exactly once on every return, error returns included; S6 no lookup (or module callee it hands the pointer to) stores through its *LookupOptions; S7 AddTriples is one critical section; S2 create/get/drop test presence under the lock; L6 planner goroutines are joined. Also: S2y write-locked create/drop; H3y module-wide pooled-buffer release order. Not decided: linearizability. Round 3: S13 lock balance per object; S3b/S3c/S3d completeness of the guard table, no package-level state, encapsulation of guarded fields; H4; H3w/H3z pooled values do not escape. Round 6: LK1 no method locks its receiver twice. Round 7: S1y a graph is complete before it is published.",
+		Rules:       []func(*Ctx){ruleS1y, func(c *Ctx) { ruleLK1(c, "bql/table", "storage/...") }, ruleS7c, ruleH4, ruleS3d, func(c *Ctx) { ruleH3w(c, "triple/...", "io", "storage/...", "bql/...") }, func(c *Ctx) { ruleH3z(c, "triple/...", "io", "storage/...", "bql/...") }, func(c *Ctx) { ruleS3c(c, "triple/...", "io", "bql/...", "storage/...") }, ruleS3b, ruleS13, ruleS3, ruleS4, ruleS5, ruleS6, ruleS7, ruleS2, ruleS2y, func(c *Ctx) { ruleH3y(c) }, func(c *Ctx) { ruleL6(c, 23, "bql/planner", "storage/...") }},
 		Level:       "lockset (S3), lock re-entry (S4), close-exactly-once typestate on all returns (S5), options never written (S6), batch atomicity (S7)",
 		Trusted:     []string{"guard table of rule S3 (field -> lock; a new map/slice field on a lock-owning type is reported until added)", "tableSequentialOnly exemptions (3 Table methods, reasons in source)", trustedCore},
 		NotDecided:  []string{"linearizability of histories", "deadlocks that depend on the consumer of a result channel (lookups send while holding the read lock by design)", "panics", "data races on state outside the guard table"},
@@ -161,8 +161,8 @@ func init() {
 	})
 	reg(&Property{
 		ID:          "C15",
-		Explanation: "Decides: L1 every compiler-unproven index/slice in node/predicate/literal/triple/io is discharged by a guard re-verified on the current code; L2 no parser or builder returns (nil, nil), ParseObject included; IO1 the reader adds only parsed triples, counts only added ones, returns errors with the count so far and reports success only after consulting the scanner's error; T1 printer/parser table agreement. Also: T2/T2b conversion table and unchanged value text; L2b nil results only with a known non-nil error. Not decided: accepted text re-parses to an equal value. Round 3: FS1; N1/N1b; T3.",
-		Rules: []func(*Ctx){ruleN2, ruleT4, ruleN1b, ruleT3, ruleN1, func(c *Ctx) { ruleFS1(c, "triple/...", "io") }, ruleT2b, func(c *Ctx) { ruleL1(c, 20, "./triple/...", "./io/...") },
+		Explanation: "Decides: L1 every compiler-unproven index/slice in node/predicate/literal/triple/io is discharged by a guard re-verified on the current code; L2 no parser or builder returns (nil, nil), ParseObject included; IO1 the reader adds only parsed triples, counts only added ones, returns errors with the count so far and reports success only after consulting the scanner's error; T1 printer/parser table agreement. Also: T2/T2b conversion table and unchanged value text; L2b nil results only with a known non-nil error. Not decided: accepted text re-parses to an equal value. Round 3: FS1; N1/N1b; T3. Round 7: PU1 the literal builder passed in is used.",
+		Rules: []func(*Ctx){func(c *Ctx) { rulePU1(c, "triple/...", "io", "bql/...") }, ruleN2, ruleT4, ruleN1b, ruleT3, ruleN1, func(c *Ctx) { ruleFS1(c, "triple/...", "io") }, ruleT2b, func(c *Ctx) { ruleL1(c, 20, "./triple/...", "./io/...") },
 			func(c *Ctx) { ruleL2(c, 20, "triple/...", "io") }, func(c *Ctx) { ruleL2b(c, 8, "triple/...", "io") }, ruleIO1, ruleT1, ruleT2},
 		Level:      "compiler prove pass + re-verified discharge table (L1), (nil,nil) contradiction rule (L2), must-pass-through on the reader (IO1)",
 		Trusted:    []string{"L1's reviewed entries for triple/…", "strings.Index / regexp.FindIndex contracts", trustedCore},
